@@ -20,7 +20,7 @@ VERIF = os.path.dirname(os.path.dirname(os.path.abspath(__file__)))
 if VERIF not in sys.path:
     sys.path.insert(0, VERIF)
 
-from harness import run, scenario, tracecheck, tlc, genmc, replay_model, families  # noqa: E402
+from harness import run, scenario, tracecheck, tlc, genmc, replay_model, families, run_api  # noqa: E402
 from harness.world import HarnessError  # noqa: E402
 
 NCPU = int(os.environ.get("VERIF_JOBS", "16"))
@@ -147,7 +147,11 @@ def drv_first_round(scn, seed):
     return tr
 
 
-DRIVERS = {"random_hpc": drv_random_hpc, "scn": drv_scn, "model_replay": drv_model_replay,
+def drv_results(plan, seed, path):
+    return run_api.run_results(plan, seed=seed, path=path)
+
+
+DRIVERS = {"results": drv_results, "random_hpc": drv_random_hpc, "scn": drv_scn, "model_replay": drv_model_replay,
            "batching_input": drv_batching_input, "dry_pair": drv_dry_pair, "first_round": drv_first_round}
 
 
@@ -269,7 +273,7 @@ class Ctx:
         self.judge(traces, "replays of JadeImpl behaviours")
         return res
 
-    def judge(self, traces, what=""):
+    def judge(self, traces, what="", ignore_other=False):
         """Validate recorded traces against the monitor; collect violations of this property's clauses."""
         if not traces:
             return
@@ -285,7 +289,7 @@ class Ctx:
                     self.cnt[c] = self.cnt.get(c, 0) + n
             bad = [c for c in v["viol"] if c in mine]
             other = [c for c in v["viol"] if c not in mine]
-            if other:
+            if other and not ignore_other:
                 self.notes.append(f"other-property clauses violated in a trace of {what}: {other}")
             for c in bad:
                 k = match_known(self.known, self.prop, c, tr)
@@ -468,9 +472,94 @@ def check_C07(ctx):
                            "and as dry run (DryRunSame); (d) random full submissions", exhaustive=not q)
 
 
-CHECKS = {"C01": check_C01, "C07": check_C07}
-for _i, _p in enumerate(["C02", "C03", "C04", "C05", "C06", "C09"]):
+def small_model(ctx, name, module, consts, invariants, defs="", view="View", dump=True, workers=NCPU, timeout=1500):
+    """Run TLC on a generated MC module that EXTENDS `module` and defines constants as operators."""
+    gen = os.path.join(VERIF, "out", "gen")
+    os.makedirs(gen, exist_ok=True)
+    mod = "MC_" + re.sub(r"[^A-Za-z0-9]", "_", name) + f"_{os.getpid()}"
+    lines = [f"---- MODULE {mod} ----", f"EXTENDS {module}", ""]
+    cfg = ["SPECIFICATION Spec", "CONSTANTS"]
+    for k, v in consts.items():
+        lines.append(f"MC_{k} == {genmc.tla(v)}")
+        cfg.append(f"  {k} <- MC_{k}")
+    lines += [defs, "===="]
+    if view:
+        cfg.append(f"VIEW {view}")
+    cfg += [f"INVARIANT {i}" for i in invariants]
+    if dump:
+        cfg.append("INVARIANT DumpBehaviour")
+    cfg.append("CHECK_DEADLOCK FALSE")
+    with open(os.path.join(gen, mod + ".tla"), "w") as f:
+        f.write("\n".join(lines) + "\n")
+    cfgp = os.path.join(gen, mod + ".cfg")
+    with open(cfgp, "w") as f:
+        f.write("\n".join(cfg) + "\n")
+    res = tlc.run_tlc(mod, cfg=cfgp, workers=workers, cwd=gen, timeout=timeout)
+    for ext in (".tla", ".cfg"):
+        try:
+            os.remove(os.path.join(gen, mod + ext))
+        except OSError:
+            pass
+    ok = tlc.tlc_ok(res)
+    ctx.models.append({"name": name, "module": module, "states": res["distinct"], "transitions": res["states"],
+                       "wall_s": round(res["wall"], 1), "ok": ok, "mode": "exhaustive"})
+    if not ok:
+        raise tlc.TlcError(f"model {name} did not pass:\n" + res["out"][-3000:])
+    return res
+
+
+def note_conformance(ctx, traces, key="conformance"):
+    conf = ctx.extra.setdefault(key, {"replayed": 0, "diverged": 0, "event_diffs": 0})
+    for tr in traces:
+        c = tr.get("conformance") or {}
+        if c.get("skipped"):
+            conf["not_replayable_glob_order"] = conf.get("not_replayable_glob_order", 0) + 1
+            continue
+        if "diverged" not in c:
+            continue
+        conf["replayed"] += 1
+        if c.get("diverged"):
+            conf["diverged"] += 1
+            ctx.notes.append("model-drift: schedule could not be followed: " + json.dumps(c["diverged"])[:300])
+        elif c.get("diff"):
+            conf["event_diffs"] += 1
+            ctx.notes.append("model-drift: predicted and observed differ: " + json.dumps(c["diff"])[:300])
+
+
+def check_C08(ctx):
+    q = ctx.tier == "quick"
+    plans = run_api.results_plans()
+    rng = random.Random(ctx.seed)
+    tasks = []
+    for plan in plans:
+        mp = {"appenders": plan["appenders"], "collectors": plan["collectors"], "readers": plan["readers"]}
+        res = small_model(ctx, f"Results {plan['id']}", "Results",
+                          {"Plan": mp, "Scn": scenario.tla_scn(plan["scn"], plan["id"]), "Log": True},
+                          ["P_C08", "N_Conserved", "N_ReportedOnce", "N_AllCollectedAtEnd"])
+        behs = replay_model.parse_behaviours(res["out"])
+        behs.sort(key=lambda b: json.dumps(b["path"]))
+        if len(behs) > (150 if q else 1500):
+            behs = rng.sample(behs, 150 if q else 1500)
+        tasks += [("results", (plan, 0, b["path"])) for b in behs]
+        tasks += [("results", (plan, s, None)) for s in seeds(ctx, 100 if q else 1500, hash(plan["id"]) % 97)]
+    traces = run_tasks(tasks)
+    note_conformance(ctx, traces)
+    ctx.judge(traces, "real ResultsAggregator under model schedules and random schedules (lock-operation granularity)",
+              ignore_other=True)
+    # the aggregator inside whole submissions
+    kw = dict(n_min=3, n_max=7, groups_max=1)
+    ctx.judge(run_tasks([("random_hpc", (s, kw)) for s in seeds(ctx, 150 if q else 2000, 5)]), "random HPC submissions")
+    return ctx.finish(rule="Results.tla: all interleavings of 2-3 appenders with 2 collectors (1-3 rounds, canceled rows) and a "
+                           "reader at lock-operation granularity; the model's complete behaviours and random schedules executed "
+                           "on the real ResultsAggregator in virtual processes parked at every lock operation; plus rows/collected "
+                           "events of whole submissions")
+
+
+CHECKS = {"C01": check_C01, "C07": check_C07, "C08": check_C08}
+for _i, _p in enumerate(["C02", "C03", "C04", "C05", "C09"]):
     CHECKS[_p] = make_protocol_check(10 + _i)
+# C06 also under failing scheduler queries: the limit is stated for every instant, not only for fault-free runs
+CHECKS["C06"] = make_protocol_check(16, gen_kw=dict(squeue_faults=0.4, n_min=3))
 
 
 def main(argv=None):
